@@ -2,6 +2,7 @@ package lossy
 
 import (
 	"encoding/binary"
+	"fmt"
 	"sync"
 
 	"github.com/deepteams/webp/internal/bitio"
@@ -38,6 +39,19 @@ func (enc *VP8Encoder) emitFrame() ([]byte, error) {
 	}
 	enc.stats.HeaderSize = 10 + len(part0) // frame tag + pic header + partition 0
 	enc.stats.Residuals = tokenSize
+
+	// The frame tag stores the first partition's length in 19 bits and the
+	// partition table stores each token partition's length in 24 bits. Larger
+	// partitions cannot be represented (libwebp: PARTITION0_OVERFLOW /
+	// PARTITION_OVERFLOW); fail instead of emitting an undecodable frame.
+	if len(part0) >= 1<<19 {
+		return nil, fmt.Errorf("vp8: first partition too large (%d bytes, limit %d)", len(part0), 1<<19-1)
+	}
+	for i := 0; i < len(tokenParts)-1; i++ {
+		if len(tokenParts[i]) >= 1<<24 {
+			return nil, fmt.Errorf("vp8: token partition %d too large (%d bytes, limit %d)", i, len(tokenParts[i]), 1<<24-1)
+		}
+	}
 
 	// Frame tag (3 bytes) + picture header (7 bytes for keyframe).
 	return enc.assembleFrame(part0, tokenParts), nil
